@@ -94,6 +94,10 @@ impl Method for ADI {
 	type Output = ValueType;
 
 	fn new(length: Self::Params, candle: &Self::Input) -> Result<Self, Error> {
+		if length == PeriodType::MAX {
+			return Err(Error::WrongMethodParameters);
+		}
+
 		let mut cmf_sum = 0.0;
 		let window = if length > 0 {
 			let clvv = candle.clv() * candle.volume();
